@@ -6,7 +6,15 @@ HOOK_COMMITS = ["d85c6ee", "170bde9", "43ffa35", "8043914", "4c6f2d6"]
 
 # id -> (engine, category, technique, level text, level note, design ref)
 CHECKS = {
- "C16": ("E3-enumeration", "exploration",
+ "C10": ("E3-enumeration", "exploration",
+   "bounded-exhaustive enumeration of message values through the real codec, against an independent strict bencode reader and an independently built wire tree",
+   "Every message kind with every optional-field combination over boundary menus is encoded, independently re-parsed (canonical form, BEP key names, compact formats) and decoded back; the BEP5 example messages are decoded and re-encoded; exhaustive over the stated menus.",
+   "Trusts the harness' own bencode reader and tree builder (written from the BEPs, sharing no code with the crate).", "DESIGN.md section 6, C10"),
+ "C11": ("E3-enumeration", "exploration",
+   "bounded-exhaustive enumeration of insertion sequences through the public ClosestNodes/RoutingTable API, against a brute-force sort",
+   "Every subset of a 7-node universe that realises each relation the ordering and the same-IP rule inspect, in every insertion order, for several targets and table ids, plus 21-24 node sets under rotations/transpositions for the K cut and the parameter grid of take_until_secure; exhaustive inside those bounds.",
+   "Security of ids is decided by the harness' independent BEP42/CRC32C reference.", "DESIGN.md section 6, C11"),
+  "C16": ("E3-enumeration", "exploration",
    "bounded-exhaustive enumeration of response streams fed through the real handle's channel, against a max-fold reference",
    "Every stream of up to 5 (quick) / 7 (thorough) items over an 8-item alphabet covering gaps, duplicates and ties is delivered to the real sync and async functions by a harness-played actor; exhaustive within that bound.",
    "Trusts flume FIFO order; authenticity of delivered items is C02's concern.", "DESIGN.md section 6, C16"),
